@@ -214,6 +214,11 @@ func (f *FrameHeader) readFrom(br *bufio.Reader) (int64, error) {
 		n, err = io.ReadFull(br, f.payload[:n])
 		if err != nil {
 			ReleaseFrame(f.fr)
+			// The body is back in its pool. Leaving it on the header makes the
+			// callers release it a second time, and two later AcquireFrame
+			// calls are then handed the same object.
+			f.fr = nil
+
 			return 0, err
 		}
 
